@@ -490,9 +490,14 @@ pub fn run_c05_c17(prop: &'static str, tier: Tier) -> ! {
                         t.add(v);
                     }
                 }
-                // all decoder front-ends on the frame: no panic, no hang
+                // all decoder front-ends on the frame: no panic, no hang (growable buffer, and the
+                // largest fixed buffer for payloads that fit it: counters inside ArrayBuf)
                 let f = canon(&longs[i as usize]);
-                for tr in run_frontends(BufKind::Vec, &f, FeSet::All) {
+                let mut trs = run_frontends(BufKind::Vec, &f, FeSet::All);
+                if longs[i as usize].len() > 8192 && longs[i as usize].len() <= 65537 {
+                    trs.extend(run_frontends(BufKind::Arr(65537), &f, FeSet::Core));
+                }
+                for tr in trs {
                     c.inc("front-end runs on long frames");
                     for e in &tr.events {
                         if matches!(e, Ev::Panic(_) | Ev::Hang) {
@@ -500,7 +505,7 @@ pub fn run_c05_c17(prop: &'static str, tier: Tier) -> ! {
                                 class: "C05 front-end panics or hangs".into(),
                                 key: format!("long-payload#{}:{}", i, tr.name),
                                 what: e.short(),
-                                case: J::obj().set("engine", "e2").set("check", "C01").set("payload", hex(&longs[i as usize])),
+                                case: J::obj().set("engine", "e2").set("check", "C05fe").set("payload", hex(&longs[i as usize])),
                                 size: longs[i as usize].len(),
                             });
                         }
@@ -512,6 +517,15 @@ pub fn run_c05_c17(prop: &'static str, tier: Tier) -> ! {
         for (t, c) in parts {
             acc.tally.merge(t);
             acc.counts.merge(&c);
+        }
+        {
+            let mut out = vec![];
+            crate::e2::c07_unbounded(&mut out, &mut acc.counts);
+            for v in out {
+                if v.class.starts_with("C05") {
+                    acc.tally.add(v);
+                }
+            }
         }
         acc.transitions += longs.len() as u64 * 4;
         // driver loops under byte-source faults: see E3 (C11/C15) which also report panics
